@@ -183,6 +183,9 @@ REGISTRY = {
             {"engine": "race", "quick": {"n": 1, "seedoff": 20}, "thorough": {"n": 12, "seedoff": 20}, "asan": True, "oracle": True, "mismatch_is_failure": False, "timeout": 3400,
              "nontrivial": lambda case, res: res == "ok", "distinct_key": lambda case, res: case[:300],
              "what": "C08 races (readers incl. range scans against updates, deletes, TTL rewrites, flushes, retirement and reuse, cache eviction, io_uring and pwrite paths) " + 're-executed under AddressSanitizer (nightly toolchain, -Zsanitizer=address on the crate and the harness; child processes are the same instrumented binary): any sanitizer report or abnormal termination is the violation'},
+            {"engine": "scan", "quick": {"n": 4, "ms": 400, "seedoff": 20}, "thorough": {"n": 40, "ms": 1000, "seedoff": 20}, "asan": True, "oracle": True, "mismatch_is_failure": False, "timeout": 3400,
+             "nontrivial": lambda case, res: "pairs=0" not in case, "distinct_key": lambda case, res: case,
+             "what": "four scanners running range_query at full speed against four writers that replace (slice and Bytes), delete, re-create, TTL-rewrite and compare-and-swap the same 2-6 keys with 40 B - 20 KiB values, memory-only and persistent " + 're-executed under AddressSanitizer (nightly toolchain, -Zsanitizer=address on the crate and the harness; child processes are the same instrumented binary): any sanitizer report or abnormal termination is the violation'},
             {"engine": "seq", "quick": {"n": 1, "ops": 50, "seedoff": 20}, "thorough": {"n": 20, "ops": 120, "seedoff": 20}, "asan": True, "oracle": True, "mismatch_is_failure": False, "timeout": 3400,
              "nontrivial": lambda case, res: res.count(" | ") >= 20, "distinct_key": lambda case, res: res,
              "what": "C01 call sequences over every API spelling, expiry, cache, reopen and shutdown " + 're-executed under AddressSanitizer (nightly toolchain, -Zsanitizer=address on the crate and the harness; child processes are the same instrumented binary): any sanitizer report or abnormal termination is the violation'},
